@@ -271,6 +271,17 @@ def dom_map(mapping):
 MAPPING2 = {"yes": 1, "abc": 0}
 
 
+def dom_validated_tuple(ex, st, v):
+    """ValidatedTuple(CFloat, CFloat, fvalidate=t[0] < t[1]): both items castable to float, and the CONVERTED pair ordered"""
+    if not isinstance(v, tuple) or len(v) != 2:
+        return (REJECT,)
+    try:
+        conv = (float(v[0]), float(v[1]))
+    except (TypeError, ValueError):
+        return (REJECT,)
+    return (ACCEPT, conv) if conv[0] < conv[1] else (REJECT,)
+
+
 def dom_map_compound(ex, st, v):
     """Trait('yes', {'yes': 1, 'abc': 0}, List(Int)): a key of the mapping, or a list of ints (unhashable, so it can never be
     a key; its shadow value is the list itself)"""
@@ -436,6 +447,17 @@ CONFIGS = {
     "BaseCFloat": (simple(lambda: __import__("traits.api", fromlist=["x"]).BaseCFloat()), dom_cfloat, ["none", "bool", "int64", "float", "str", "object"]),
     "BaseRangeFloat": (mk_base_range("float"), dom_range_float, ["none", "bool", "float", "floatsub", "floatobj", "npfloat", "str", "object"]),
     "BaseRangeInt": (mk_base_range("int"), dom_range_int, ["none", "bool", "int", "intsub", "float", "indexobj", "npint", "str"]),
+    # validated properties: the setter must receive the documented conversion
+    "Property:Float": (simple(Float), dom_float, ["none", "bool", "int64", "float", "floatsub", "floatobj", "indexobj", "str"]),
+    "Property:Int": (simple(Int), dom_int, ["none", "bool", "int", "intsub", "indexobj", "float", "str"]),
+    "Property:CInt": (simple(CInt), dom_cint, ["none", "bool", "int", "float", "str"]),
+    "Property:RangeFloatConst": (mk_range_float_const, dom_range_float, ["bool", "int64", "indexobj"]),
+    # definitions derived by calling a trait type with other metadata (clone)
+    "InstanceA_clone_nonone": (simple(lambda: Instance(A)(allow_none=False)), dom_instance(A, False), ["none", "instA", "instB", "instU", "object"]),
+    "InstanceA_clone_none": (simple(lambda: Instance(A, allow_none=False)(allow_none=True)), dom_instance(A, True), ["none", "instA", "instU", "object"]),
+    # a tuple whose custom predicate is documented to see the CONVERTED items
+    "ValidatedTupleCFloat": (simple(lambda: __import__("traits.api", fromlist=["x"]).ValidatedTuple(
+        CFloat, CFloat, fvalidate=lambda t: t[0] < t[1])), dom_validated_tuple, ["tuple_numstr", "none"]),
     # prefix uniqueness, decided for EVERY string (z3 String, length <= 8)
     "PrefixList": (mk_prefix("list"), dom_prefix(PREFIX_VALUES), ["symstr", "strsub", "none", "int", "bytes", "object"]),
     "PrefixMap": (mk_prefix("map"), dom_prefix(list(PREFIX_MAP)), ["symstr", "strsub", "none", "int", "object"]),
@@ -504,13 +526,28 @@ def patch_members(handler):
 
 def make_harness(cfgname, kind):
     mk, dom, _kinds = CONFIGS[cfgname]
+    as_property = cfgname.startswith("Property:")
 
     def harness(ex):
         ttype, st = mk(ex)
 
-        class Owner(A):
-            x = ttype
-            other = Int(7)
+        if as_property:
+            # x = Property(<inner trait>): the value is validated by the inner trait and the SETTER receives the validated value
+            from traits.api import Property
+
+            class Owner(A):
+                x = Property(ttype)
+                other = Int(7)
+
+                def _get_x(self):
+                    return self.__dict__.get("x_store")
+
+                def _set_x(self, value):
+                    self.__dict__["x_store"] = value
+        else:
+            class Owner(A):
+                x = ttype
+                other = Int(7)
 
         o = Owner()
         log = []
@@ -560,6 +597,11 @@ def make_harness(cfgname, kind):
         if d[0] == "skip":
             return {"rc": rc}
         after = dict(o.__dict__)
+        if as_property:
+            # what the setter was given plays the role of the stored value
+            for dct in (before, after):
+                if "x_store" in dct:
+                    dct["x"] = dct.pop("x_store")
         if rc == 0:
             ex.check(d[0] == ACCEPT, "accepted value lies in the declared domain")
             if d[0] == ACCEPT and cfgname == "MapCompound" and type(d[1]) is list:
